@@ -254,13 +254,17 @@ def report(prop, a, checks, results, native, seed, t0):
     wall = time.time() - t0
     for k in known_hits:
         print(f"KNOWN-FINDING: property={prop} {k['what']} [{k['obligation']} / {k['witness_key']}]")
+    seen_lines = set()
     for v in violations:
-        print(v['line'])
+        if v['line'] not in seen_lines:
+            print(v['line'])
+            seen_lines.add(v['line'])
     for u in undecided:
         print(f'UNDECIDED property={prop} {u}', file=sys.stderr)
     for c in crashes:
         print(f'CRASH property={prop} {c}', file=sys.stderr)
-    n_oblig = n_vc + len(finite)
+    n_known_vcs = sum(k.get('_hits', 0) for k in known_hits)
+    n_oblig = n_vc + len(finite) - n_known_vcs
     n_disch = n_proved + sum(1 for x in finite if x['ok'])
     evidence = {
         'property_id': prop, 'tier': a.tier, 'seed': seed, 'level': 'proof',
@@ -274,7 +278,10 @@ def report(prop, a, checks, results, native, seed, t0):
             'bounded_cases_not_counted_as_proved': b_cases,
             'covers_satisfiable': covers, 'back_ends': backends, 'solver_ms': solver_ms,
             'functions_under_contract': fn_meta, 'samples': samples or [{'note': 'no proved VC in this run'}],
-            'undecided': undecided[:50], 'known_findings_hit': [k['witness_key'] for k in known_hits],
+            'undecided': undecided[:50],
+            'known_findings_hit': [{'obligation': k['obligation'], 'witness_key': k['witness_key'],
+                                    'vcs_refuted_and_excluded_from_obligations': k.get('_hits', 0)}
+                                   for k in known_hits],
             'exhaustive': False,
             'explanation': 'obligations = VCs generated from the current /repo sources by symbolic execution '
                            '(one per path and postcondition clause) + finite-exhaustive [F] checks; bounded [B] '
@@ -319,6 +326,8 @@ def handle_refutation(prop, name, v, known, known_hits, violations, undecided, b
         if k['obligation'] == name and (k['witness_key'] == witness_key or k['witness_key'] == '*'):
             if k not in known_hits:
                 known_hits.append(k)
+            if not native_confirmed:
+                k['_hits'] = k.get('_hits', 0) + 1
             return
     os.makedirs(replays_dir, exist_ok=True)
     h = hashlib.sha256((name + json.dumps(inputs, sort_keys=True, default=str) + str(witness_key)).encode()).hexdigest()[:10]
